@@ -172,14 +172,53 @@ fn main() {
                     .filter_map(|(p, id)| sim_ir.module_variables.variables.get(id).map(|v| (p.to_string(), v.width)))
                     .collect();
                 let mut sim = Simulator::new(sim_ir, None);
+                // array ports: `Simulator::set/get` reach element 0 only; the other elements are written / read
+                // through the same public buffer accessors (element 0 = least significant slice of the flat value)
+                let port_var = |sim: &Simulator, name: &str| {
+                    let p = veryl_simulator::ir::VarPath::new(veryl_parser::resource_table::insert_str(name));
+                    sim.ir.ports.get(&p).and_then(|id| sim.ir.module_variables.variables.get(id)).map(|v| {
+                        (v.current_values.clone(), v.native_bytes, v.width)
+                    })
+                };
                 for (k, v) in stim["inputs"].as_object().expect("inputs") {
-                    let x = u128::from_str_radix(v.as_str().unwrap(), 16).unwrap();
-                    sim.set(k, Value::from_u128(x, 0, *widths.get(k).unwrap_or(&128), false));
+                    let hex = v.as_str().unwrap();
+                    match port_var(&sim, k) {
+                        Some((ptrs, nb, w)) if ptrs.len() > 1 && w <= 64 => {
+                            let big = num_bigint_parse(hex);
+                            for (e, ptr) in ptrs.iter().enumerate() {
+                                let mut x: u128 = 0;
+                                for b in 0..w {
+                                    if bit_of(&big, e * w + b) {
+                                        x |= 1 << b;
+                                    }
+                                }
+                                unsafe {
+                                    veryl_simulator::ir::write_native_value(*ptr, nb, sim.ir.use_4state, &Value::from_u128(x, 0, w, false));
+                                }
+                            }
+                            sim.mark_comb_dirty();
+                        }
+                        _ => {
+                            let x = u128::from_str_radix(hex, 16).unwrap_or(0);
+                            sim.set(k, Value::from_u128(x, 0, *widths.get(k).unwrap_or(&128), false));
+                        }
+                    }
                 }
                 let mut row = serde_json::Map::new();
                 for o in stim["outputs"].as_array().expect("outputs") {
                     let name = o.as_str().unwrap();
-                    let v = sim.get(name).map(|v| format!("{:x}", v.payload_u128())).unwrap_or_default();
+                    let v = match port_var(&sim, name) {
+                        Some((ptrs, nb, w)) if ptrs.len() > 1 && w <= 64 => {
+                            sim.ensure_comb_updated();
+                            let mut parts = Vec::new();
+                            for ptr in &ptrs {
+                                let val = unsafe { veryl_simulator::ir::read_native_value(*ptr, nb, sim.ir.use_4state, w as u32, false) };
+                                parts.push(format!("{:x}", val.payload_u128()));
+                            }
+                            parts.join(",")
+                        }
+                        _ => sim.get(name).map(|v| format!("{:x}", v.payload_u128())).unwrap_or_default(),
+                    };
                     row.insert(name.to_string(), serde_json::Value::String(v));
                 }
                 outs.push(serde_json::Value::Object(row));
@@ -198,4 +237,22 @@ fn main() {
             std::process::exit(2);
         }
     }
+}
+
+
+/// hex string -> little-endian bytes (array ports can be wider than 128 bits)
+fn num_bigint_parse(hex: &str) -> Vec<u8> {
+    let h = hex.trim_start_matches("0x");
+    let mut out = Vec::new();
+    let cs: Vec<char> = h.chars().rev().collect();
+    for ch in cs.chunks(2) {
+        let lo = ch[0].to_digit(16).unwrap_or(0) as u8;
+        let hi = ch.get(1).and_then(|c| c.to_digit(16)).unwrap_or(0) as u8;
+        out.push(lo | (hi << 4));
+    }
+    out
+}
+
+fn bit_of(bytes: &[u8], i: usize) -> bool {
+    bytes.get(i / 8).is_some_and(|b| (b >> (i % 8)) & 1 == 1)
 }
